@@ -394,7 +394,8 @@ class XMIResource(Resource):
 
     def _build_none_node(self, feature_name):
         sub = Element(feature_name)
-        xsi_null = QName(self.xsi_type_url(), 'nil')
+        # always xsi:nil (there is no xmi:nil, and load only knows xsi:nil)
+        xsi_null = QName(XSI_URL, 'nil')
         sub.attrib[xsi_null] = 'true'
         return sub
 
